@@ -30,7 +30,7 @@ def run(res, tier, rng):
         hosts = [name + "." + base_suffix, "blog." + name + "." + base_suffix]
         if i % 5 == 4:
             # a registrable name that is itself a (private) public suffix, or a bare multi-label suffix
-            hosts = [rng.choice(["blogspot.com", "github.io", "uk.com", "co.uk", "x.blogspot.com", "x.github.io", "com.au"])]
+            hosts = [rng.choice(["blogspot.com", "github.io", "uk.com", "co.uk", "x.blogspot.com", "x.github.io", "com.au", "127.0.0.1", "localhost", "[::1]", "192.168.0.12"])]
             name = hosts[0]
         su = gen_su(rng, hosts=hosts, schemes=("http://", "https://", ""))
         base = su.render()
@@ -50,7 +50,9 @@ def run(res, tier, rng):
                 variants.append(("upper case", v.upper() if "%" not in v else "".join(c.upper() if rng.random() < 0.5 else c for c in v)))
                 for p in (":1", ":80", ":443", ":8080", ":65535"):
                     w = su.copy(); w.port = p; variants.append(("port " + p, w.render()))
-                for _ in range(3):
+                import re as _re
+                named = su.host.count(".") >= 1 and not _re.fullmatch(r"\[.*\]|[0-9.]+", su.host)   # a language label only goes when two labels remain after it
+                for _ in range(3 if named else 0):
                     a, b = rng.choice(codes), rng.choice(codes)
                     for lab in (a.lower(), a, a.lower() + "-" + b, a + "-" + b.lower()):
                         w = su.copy(); w.host = lab + "." + su.host; variants.append(("language label " + lab, w.render()))
@@ -111,7 +113,7 @@ def run(res, tier, rng):
                         res.violation("property", "the fingerprint carries a scheme, userinfo or port", input=dict(url=base, strip_suffix=ss), impl=list(sp))
                 # negative: a non-country label, or only two labels left, is kept
                 w = su.copy(); w.host = "zz." + su.host
-                if call(fingerprint_url, w.render(), strip_suffix=False) == call(fingerprint_url, base, strip_suffix=False) and "ZZ" not in ISO:
+                if named and call(fingerprint_url, w.render(), strip_suffix=False) == call(fingerprint_url, base, strip_suffix=False) and "ZZ" not in ISO:
                     res.violation("property", "a label that is not a country code was stripped", input=dict(url=w.render()), impl=call(fingerprint_url, w.render()))
     # model vs implementation (also on the urls of the shared grammar: compositional hosts, table-driven query items)
     for _ in range(1500 if tier == "quick" else 30000):
